@@ -2358,6 +2358,9 @@ def check_C02(A, R, tier):
     # R2.9 (= R4.8): a validated Ephemeral that learns it is needed while its own upstreams are pending tells them on every path
     from rules_c04 import rule_needed_marks_inputs
     rule_needed_marks_inputs(A, R, "R2.9")
+    # R2.10 (= R5.7): the direct upstream Ephemerals that wait for a job's decision - parked, or validated and themselves still
+    # waiting - are looked at again when the job is finished without having run
+    rule_wake_parked_upstreams(A, R, "R2.10")
     # R2.3: get_job_output reports the field the success event stored
     gjo = A.evaluator_fn("get_job_output")
     r = A.joined_run(gjo)
@@ -2517,12 +2520,22 @@ def rule_wake_parked_upstreams(A, R, rule):
                                   "evaluation stalls", site=A.site(w))
             # ... for every delayed state the upstream can be parked in
             if ok:
-                for d in sorted(delayed):
+                # (also one that is validated and itself still waiting for its upstreams: it is the one that passes the news on -
+                # it marks its own inputs as needed or not - so it has to look again as well)
+                from rules_compare import invalidated_states
+                inv_ = invalidated_states(A)
+                cleanup_kinds_ = set(A.kind_of(x) for x in C["CleanupOffered"])
+                waiting = set(x for x in reach if A.kind_of(x) in cleanup_kinds_ and x not in C["Finished"] and x not in C["Ready"]
+                              and x not in C["Running"] and x not in inv_ and x not in C["Init"])
+                # (not after a skip: a validated upstream that is still waiting consults the summary anyway once its own upstreams
+                # are done; after a failure nothing else would tell it that its consumer is gone)
+                for d in sorted(set(delayed) | (waiting if hk == K["upfail"] else set())):
                     r2 = A.run(sp.name, "HW|%s|%s|%s" % (A.kname(hk), A.sname(s), A.sname(d)),
                                dict(opaque=[x for x in A.signal_entry_names() if x != sp.name], drain_kinds=fin(A.L.signalkind, [hk]),
                                     cell_init={"sigtarget": fin(A.L.jobstate, [s]), "nbr:Incoming:sigtarget": fin(A.L.jobstate, [d])}))
                     em2 = [v for v in r2.by_kind("push_signal") if v["container"] != "queue" and K["consider"] in v["kinds"]
-                           and any(isinstance(r_, tuple) and r_[0] == "nbr" and r_[2] == "Incoming" for r_ in _flat_roles(v["key"][1]))]
+                           and any(isinstance(r_, tuple) and r_[0] == "nbr" and r_[2] == "Incoming" for r_ in _flat_roles(v["key"][1]))
+                           and (is_direct_nbr_of_sig(v) or nbr_parent(v["key"])[0] is None)]      # the direct upstream itself
                     R.ob(rule, "%s handler | %s | an upstream parked in %s is sent a consider signal" % (label, A.sname(s), A.sname(d)), bool(em2),
                          detail="the reconsideration passes over an upstream in the delayed state", site=A.site(w))
     R.floor(rule, "finishing writes of jobs that were not behind the gate", n, 4)
